@@ -12,7 +12,7 @@ from .sys_fn_ipc import create_system_functions_ipc, create_system_var_ipc
 from .sys_fn_timer import create_system_functions_timer
 from .sys_var import *
 from .utils import ReadonlyDict
-from .compiler import compile_expr
+from .compiler import compile_expr, run_compiled
 
 
 def set_context_var(d, sym, v):
@@ -695,12 +695,9 @@ class KlongInterpreter():
                         compiled = compile_expr(x, self) or False
                         x._compiled = compiled
                     if compiled and compiled is not False:
-                        fn, var_syms = compiled
-                        try:
-                            args = [self._context[s] for s in var_syms]
-                            return fn(*args)
-                        except Exception:
-                            pass
+                        ok, r = run_compiled(compiled, self)
+                        if ok:
+                            return r
                 f = self._get_op_fn(x.a.a, x.a.arity)
                 fa = (x.args if isinstance(x.args, list) else [x.args]) if x.args is not None else x.args
                 _y = self.eval(fa[1]) if x.a.arity == 2 else None
@@ -713,12 +710,9 @@ class KlongInterpreter():
                     compiled = compile_expr(x, self) or False
                     x._compiled = compiled
                 if compiled and compiled is not False:
-                    fn, var_syms = compiled
-                    try:
-                        args = [self._context[s] for s in var_syms]
-                        return fn(*args)
-                    except Exception:
-                        pass
+                    ok, r = run_compiled(compiled, self)
+                    if ok:
+                        return r
                 return chain_adverbs(self, x.a)()
             elif isinstance(x, KGCall):
                 return self._eval_fn(x)
@@ -757,12 +751,9 @@ class KlongInterpreter():
                 compiled = compile_expr(cached, self)
                 self._compiled_cache[cache_key] = compiled or False
             if compiled and compiled is not False:
-                fn, var_syms = compiled
-                try:
-                    args = [self._context[s] for s in var_syms]
-                    return fn(*args)
-                except Exception:
-                    pass  # fall through to interpreter
+                ok, r = run_compiled(compiled, self)
+                if ok:
+                    return r
 
         # Existing interpreter path
         if type(cached) is list:
